@@ -88,7 +88,10 @@ impl BytecodeInterpreter {
                         .add_constant(Constant::FunctionReference(if *is_foreign {
                             FunctionReference::Foreign(identifier.to_compact_string())
                         } else {
-                            FunctionReference::Normal(identifier.to_compact_string())
+                            FunctionReference::Normal(
+                                identifier.to_compact_string(),
+                                self.vm.get_function_idx(identifier),
+                            )
                         }));
                     self.vm.add_op1(Op::LoadConstant, index, *span);
                 } else {
